@@ -2,6 +2,7 @@
 from fractions import Fraction as F
 
 from props import _units as X
+from props import _ufault as UF
 
 ID = "C08"
 SECTIONS = ["units"]
@@ -51,8 +52,9 @@ def gen_cases(rng, n):
         ["node", "add", [lf(m), lf(s)]],                       # genuine mismatch
         ["node", "sub", [["node", "mul", [lf(m), lf(s)]], lf(m)]],  # genuine mismatch
     ]
-    for t in corpus:
+    for t in corpus + UF.probes():
         cases.append([["eval", t]])
+    n += len(cases)
     while len(cases) < n:
         depth = rng.choice([2, 3, 3, 4, 4, 5])
         syms = rng.sample(X.SYMS, rng.randint(1, 4))
@@ -78,6 +80,9 @@ def gen_cases(rng, n):
         if any(X.dim_tree(x, {})[0] == "ok" and not X.ok_exps(X.dim_tree(x, {})[1])
                for x in X.subtrees(t) if x[0] != "const") or X.tree_size(t) > 60:
             continue
+        # the same formula with other argument types, after requests that are rejected, or
+        # recalculated after such requests (deliberate: about two thirds of the trees)
+        t, _ = UF.decorate(rng, t)
         if not X.float_ok(t, {}):
             skipped += 1
             continue
@@ -89,7 +94,7 @@ def correspond(ctx):
     cases, skipped = gen_cases(ctx.rng, ctx.n(400, 20000))
     r = X.run_cases(ctx, ID, cases)
     nontrivial = set()
-    for (ci, t, dh, dm, o) in r.pop("evals"):
+    for (ci, t, dh, dm, o, si) in r.pop("evals"):
         if X.differently_ordered_sum(t):
             nontrivial.add(X.case_hash(t))
     r["nontrivial"] = nontrivial
@@ -123,6 +128,6 @@ def replay(ctx, rp):
     t = (f.get("shrunk") or {}).get("tree") or f.get("tree")
     if not t:
         return {"fails": False, "note": "replay file carries no concrete input", "payload": rp}
-    (_, dh, dm, o), = X.run_history(q, [["eval", t]])
+    (_, dh, dm, o, _), = X.run_history(q, [["eval", t]])
     fs = X.judge_eval(ID, t, dh, o)
     return {"fails": bool(fs), "input": X.pretty_tree(t), "impl": o, "failures": fs}
